@@ -4,12 +4,12 @@ func init() {
 	registry["C13"].Mutants = append(registry["C13"].Mutants, []Mutant{
 		// per-element-loops-visit-every-element
 		{Name: "adv-loop-relaunch-stops-at-first-non-htlc-resolver", File: "contractcourt/channel_arbitrator.go",
-			Old:    "		htlcResolver, ok := resolver.(htlcContractResolver)\n		if !ok {\n			continue\n		}",
-			New:    "		htlcResolver, ok := resolver.(htlcContractResolver)\n		if !ok {\n			break\n		}",
+			Old:    "		htlcResolver, ok := resolver.(htlcContractResolver)\n		if !ok {\n			launchable = append(launchable, resolver)\n			continue\n		}",
+			New:    "		htlcResolver, ok := resolver.(htlcContractResolver)\n		if !ok {\n			launchable = append(launchable, resolver)\n			break\n		}",
 			Expect: "per-element-loops-visit-every-element"},
 		{Name: "adv-loop-relaunch-missing-htlc-returns-nil", File: "contractcourt/channel_arbitrator.go",
-			Old:    "		if !ok {\n			return fmt.Errorf(\n				\"htlc resolver %T unavailable\", resolver,\n			)\n		}",
-			New:    "		if !ok {\n			return nil\n		}",
+			Old:    "				\"relaunching it\", c.cfg.ChanPoint, resolver,\n				htlcPoint)\n\n			continue\n		}",
+			New:    "				\"relaunching it\", c.cfg.ChanPoint, resolver,\n				htlcPoint)\n\n			return nil\n		}",
 			Expect: "per-element-loops-visit-every-element"},
 		{Name: "adv-loop-dust-outcome-error-ends-without-error", File: "contractcourt/channel_arbitrator.go",
 			Old:    "			key.ChanID, key.HtlcID, false,\n		)\n		if err != nil {\n			return err\n		}",
